@@ -899,6 +899,9 @@ impl Check for C07 {
         }
         out.into_iter().map(|s| serde_json::to_value(s).unwrap()).collect()
     }
+    fn attempts(&self) -> u32 {
+        3
+    }
     fn rule(&self) -> String {
         "one run = one seeded scenario. 4 of 5 are engine scenarios: a provider configuration (tool_choice auto/none/required/named/allowed-tools, both history modes), a provider script of 2-8 responses (SSE with text, 0-3 function calls over 9 tool names incl. an unknown one with valid/invalid/non-JSON arguments delivered inline, as deltas or by a done event, invalid-JSON and schema-invalid events, [DONE] present/missing/twice, CRLF, 4 chunking modes, connection drop at a seeded byte; HTTP errors 400-503 with bodies of 0-9000 bytes incl. multi-byte text around byte 2048 that may echo the request; empty body; garbage; close without response) and 1-6 steps (post a prompt / tool envelope incl. timeout, unknown tool, invalid args / checkpoint create or rewind / malformed envelope to the default thread or a branch, waiting or in parallel with earlier runs; thread-less sessions; make the artifact store unwritable so context compilation fails, and restore it). 1 of 5 are job scenarios: messages then 1-3 compaction-auto / schedule(execute) calls through the store's synchronous drivers with the k-th artifact write/create/rename inside one of them failing with ENOSPC/EIO/EACCES. After quiescence the log is parsed independently and checked: per accepted post exactly one run_spawned naming the returned session and exactly one run_ended; message < spawned < [selection_decided < context_compiled] < side-effects* < cursor_updated? < run_ended in file order; selection and compile both or neither, present whenever the provider was contacted and absent after context_compile_failed; the run's session_ended precedes run_ended; each session stream starts with session_started at seq 0, has exactly one session_ended which is its last frame and carries its highest seq; no run frames without a post; each job id spawned once, ended at most once and after its spawn; no engine task panics; a run that never ends (no new frame for 1.5 s after a task panic, or 20 s otherwise) is a violation. distinct = hash of the scenario; non-trivial = a tool ran or a provider fault was served (engine) / a fault was injected inside a spawned job (jobs)".into()
     }
